@@ -375,6 +375,16 @@ def _is_swapped(sl) -> bool:
     return (a, b) == ("index[1]", "index[0]") and norm(c) == "index[2:]"
 
 
+def eval_closures_of(parent: ast.FunctionDef):
+    """Nested defs of `parent` that are installed as the eval of a series (`S.eval = f` or `BlockSeries(eval=f, ...)`), in source order."""
+    from .core import nested_defs
+    out = []
+    for d in nested_defs(parent):
+        if _series_of_eval(parent, d):
+            out.append(d)
+    return out
+
+
 def _series_of_eval(parent: ast.FunctionDef, d: ast.FunctionDef) -> set:
     """names S such that `S.eval = d` or `S = BlockSeries(eval=d, ...)` in the enclosing function."""
     out = set()
@@ -428,9 +438,8 @@ def rule_adjoint_fill(rep: Report, repo: Repo):
 
     sites = []
     cdp = repo.find("series::cauchy_dot_product", RF)
-    for d in nested_defs(cdp):
-        if d.name == "eval":
-            sites.append(("series", f"series::cauchy_dot_product::eval@{_ordinal(cdp, d)}", d, cdp))
+    for k_, d in enumerate(eval_closures_of(cdp)):
+        sites.append(("series", f"series::cauchy_dot_product::eval@{k_}", d, cdp))
     otb = repo.find("block_diagonalization::operator_to_BlockSeries", RF)
     for d in nested_defs(otb):
         if d.name == "op_eval":
@@ -630,7 +639,7 @@ def rule_cauchy_wiring(rep: Report, repo: Repo):
         if kw.get("data", "None") != "None":
             rep.fail(RC, "series::cauchy_dot_product the product series starts with data", kw.get("data"), loc(f))
     # eval closure of the two-factor product
-    evs = [d for d in nested_defs(f) if d.name == "eval" and d in rest]
+    evs = [d for d in eval_closures_of(f) if d in rest]
     if len(evs) != 1:
         raise AnalysisError(RC, "two-factor eval closure not found")
     fwd = []
